@@ -4,6 +4,7 @@ import Cinco.Drv.CfgWire
 import Cinco.Drv.ProxyWire
 import Cinco.Drv.StubWire
 import Cinco.Drv.HeapWire
+import Cinco.Drv.NestedWire
 import Cinco.TreeIO.Include
 import Cinco.Format.Xml
 import Cinco.Format.Yaml
@@ -272,6 +273,7 @@ def handle (cmd : String) (j : Json) : R Json := do
   | "heap.run" => heapRun j
   | "list.run" => listRun j
   | "dict.run" => dictRun j
+  | "nested.render" => nestedRender j
   | "hash" => do
       match Hash.byName (← fStr j "alg") with
       | some h => pure (Json.mkObj [("digest", bytesJson (h (← fBytes j "data")))])
